@@ -573,6 +573,8 @@ class Interp:
         if not st.branch(Val.is_o(base)):
             # attribute of a non-object: a class constant used as a namespace, or an error
             if st.branch(Val.is_c(base)):
+                if name == '__name__':
+                    return Val.s(V.uf('class_name', V.I, V.S)(Val.cid(base)))
                 raise Unsupported('attribute %s of a symbolic class/function value' % name)
             self.raise_(AttributeError, name)
         if name == '__class__':
@@ -626,7 +628,23 @@ class Interp:
             elif not self.pure and self.st.branch(z3.And(Val.is_o(base), self.st.cls_of(Val.ref(base)) == V.LIST_CID)):
                 seq, wrap = self.st.items(Val.ref(base)), lambda s: self.st.new_list(s)
             elif self.pure:
-                seq, wrap = self.st.sel(self.heap.get('list'), Val.ref(base)), lambda s: SeqV(s)
+                # tag not known statically: a string slice or a tuple/list slice, chosen by the tag
+                sseq = Val.sv(base)
+                tseq = z3.If(Val.is_t(base), Val.tv(base), self.st.sel(self.heap.get('list'), Val.ref(base)))
+                outs = []
+                for sq in (sseq, tseq):
+                    n = z3.Length(sq)
+
+                    def nrm(v, default, n=n):
+                        if v is None:
+                            return default
+                        k = num_int(v)
+                        k = z3.If(k < 0, k + n, k)
+                        return z3.If(k < 0, z3.IntVal(0), z3.If(k > n, n, k))
+                    a = nrm(lo, z3.IntVal(0))
+                    b = nrm(hi, n)
+                    outs.append(z3.Extract(sq, a, z3.If(b - a < 0, z3.IntVal(0), b - a)))
+                return z3.If(Val.is_s(base), Val.s(outs[0]), Val.t(outs[1]))
             else:
                 raise Unsupported('slice of a non-sequence')
         n = z3.Length(seq)
@@ -903,6 +921,18 @@ class Interp:
             h = getattr(self, 'spec_' + node.func.id, None)
             if h is not None and (self.pure or node.func.id in ('items', 'ghost')) and node.func.id not in self.env:
                 return h(node)
+        if not self.pure:
+            ac = self.reg.abstract_for(self, node)
+            if ac is not None:
+                if isinstance(node.func, ast.Attribute):
+                    # the receiver is still evaluated: a method of a non-object does not exist
+                    recv = self.ev(node.func.value)
+                    if V.is_val(recv) and not self.st.branch(Val.is_o(recv)):
+                        self.raise_(AttributeError, node.func.attr)
+                args = [self.ev(a.value if isinstance(a, ast.Starred) else a) for a in node.args]
+                for k in node.keywords:
+                    self.ev(k.value)
+                return self.call_contract(ac, args, {})
         if any(isinstance(a, ast.Starred) for a in node.args) or any(k.arg is None for k in node.keywords):
             return self.call_starred(node)
         if isinstance(node.func, ast.Attribute):
@@ -1120,6 +1150,10 @@ class Interp:
             sep = Val.sv(av[0]) if av else z3.StringVal('\x00ws')
             seq = V.uf('str_split', V.S, V.S, SeqVal)(s, sep)
             return SeqV(seq) if self.pure else self.st.new_list(seq)
+        if name == 'splitlines' and not av:
+            self.st.assumptions.add('A-str: str.splitlines is the uninterpreted function `str_splitlines`')
+            seq = V.uf('str_splitlines', V.S, SeqVal)(s)
+            return SeqV(seq) if self.pure else self.st.new_list(seq)
         if name == 'format':
             raise Unsupported('str.format')
         raise Unsupported('str.%s' % name)
@@ -1245,7 +1279,18 @@ class Interp:
                 for kk, vv in other.obj.items():
                     self.dict_set(ref, lit(kk), lit(vv))
                 return V.NONE
-            raise Unsupported('dict.update with a symbolic dict')
+            ov = self.to_val(other)
+            if not st.branch(z3.And(Val.is_o(ov), st.cls_of(Val.ref(ov)) == V.DICT_CID)):
+                raise Unsupported('dict.update with a non-dict argument')
+            omap = st.dmap(Val.ref(ov))
+            nk = st.fresh('upd_keys', SeqVal)
+            nm = st.fresh('upd_map', z3.ArraySort(Val, Val))
+            kk = z3.Const(st.fresh_name('upd_k'), Val)
+            st.pc.append(z3.ForAll([kk], z3.Select(nm, kk) == z3.If(z3.Select(omap, kk) != V.ABSENT, z3.Select(omap, kk),
+                                                                    z3.Select(amap, kk))))
+            st.set_dict(ref, nk, nm)
+            st.assumptions.add('A-dict: after d.update(e) the key order of d is unspecified (only the mapping is modelled)')
+            return V.NONE
         raise Unsupported('dict.%s' % name)
 
     def assume_dict_wf(self, ref):
@@ -1862,10 +1907,77 @@ class Interp:
                 raise Unsupported('del target')
 
     def x_If(self, node):
+        if self.mergeable_if(node):
+            return self.merged_if(node)
         if self.test(self.ev(node.test)):
             self.exec_block(node.body)
         else:
             self.exec_block(node.orelse)
+
+    @staticmethod
+    def _simple_value(v):
+        return isinstance(v, (ast.Name, ast.Constant)) and not (isinstance(v, ast.Constant) and isinstance(v.value, (bytes, complex)))
+
+    def mergeable_if(self, node):
+        """`if <test>: x = <name|constant> ...` (optionally with such an else): both outcomes are
+        joined with an if-then-else term instead of forking the path (evaluating a local name or a
+        constant cannot raise, so nothing is lost)."""
+        def ok_block(stmts):
+            for st_ in stmts:
+                if not (isinstance(st_, ast.Assign) and len(st_.targets) == 1 and self._simple_value(st_.value)):
+                    return False
+                t = st_.targets[0]
+                if isinstance(t, ast.Name):
+                    if t.id not in self.env:
+                        return False
+                    continue
+                if isinstance(t, ast.Attribute) and isinstance(t.value, ast.Name) and t.value.id in self.env:
+                    continue
+                return False
+            return True
+        if not node.body or not ok_block(node.body) or not ok_block(node.orelse):
+            return False
+        # the test itself must be a plain comparison of local names / constants with None-ness or identity
+        t = node.test
+        if isinstance(t, ast.Compare) and len(t.ops) == 1 and isinstance(t.ops[0], (ast.Is, ast.IsNot)) \
+                and self._simple_value(t.left) and self._simple_value(t.comparators[0]):
+            for n in (t.left, t.comparators[0]):
+                if isinstance(n, ast.Name) and n.id not in self.env:
+                    return False
+            for stmts in (node.body, node.orelse):
+                for st_ in stmts:
+                    if isinstance(st_.value, ast.Name) and st_.value.id not in self.env:
+                        return False
+            return True
+        return False
+
+    def merged_if(self, node):
+        c = self.truth(self.ev(node.test))
+        st = self.st
+
+        def current(t):
+            if isinstance(t, ast.Name):
+                return self.env.get(t.id)
+            base = self.to_val(self.env[t.value.id])
+            return self.attr_term(Val.ref(base), t.attr)
+
+        def assign(t, v):
+            if isinstance(t, ast.Name):
+                self.env[t.id] = v
+            else:
+                base = self.to_val(self.env[t.value.id])
+                if not st.branch(Val.is_o(base)):
+                    self.raise_(AttributeError, t.attr)
+                st.set_attr(Val.ref(base), t.attr, v)
+        for stmts, cond in ((node.body, c), (node.orelse, z3.Not(c))):
+            for st_ in stmts:
+                t = st_.targets[0]
+                old = current(t)
+                new = self.to_val(self.ev(st_.value))
+                if old is None:
+                    # a name first bound inside the branch: fork normally for this statement
+                    raise Unsupported('conditional first binding of %s' % ast.unparse(t))
+                assign(t, z3.If(cond, new, self.to_val(old)))
 
     def x_Assert(self, node):
         if not self.test(self.ev(node.test)):
